@@ -183,6 +183,7 @@ class Rendered(object):
         self.lines = []
         self.use_line = {}      # statement id -> (line offset within the function, variable name) of its use of a name
         self.stmt_line = {}     # statement id -> line offset of its first line
+        self.bind_line = {}     # statement id (try id * 100 + j for an `as` name) -> (line offset, variable name) of the bound name
 
 
 def render(prog, fname, vkinds, bare_star=True):
@@ -206,6 +207,7 @@ def render(prog, fname, vkinds, bare_star=True):
         v = VNAMES.get(s["v"])
         R.stmt_line[k] = len(out)
         if t == "asg":
+            R.bind_line[k] = (len(out), v)
             out.append("%s%s = %s" % (ind, v, value_expr(vkinds[s["v"]], k)))
         elif t == "del":
             R.use_line[k] = (len(out), v)
@@ -217,6 +219,7 @@ def render(prog, fname, vkinds, bare_star=True):
         elif t == "cread":
             out.append("%sL(%d, g_%s())" % (ind, k, v))
         elif t == "wal":
+            R.bind_line[k] = (len(out), v)
             out.append("%sT() and (%s := %s)" % (ind, v, value_expr(vkinds[s["v"]], k)))
         elif t == "cex":
             R.use_line[k] = (len(out), v)
@@ -245,6 +248,8 @@ def render(prog, fname, vkinds, bare_star=True):
                 out.append("%selse:" % ind)
                 block(s["b"], ind + "    ")
         elif t in ("while", "for"):
+            if t == "for":
+                R.bind_line[k] = (len(out), v)
             out.append(("%swhile T():" % ind) if t == "while" else ("%sfor %s in I(%d):" % (ind, v, k)))
             block(s["a"], ind + "    ")
             if s["b"]:
@@ -252,10 +257,13 @@ def render(prog, fname, vkinds, bare_star=True):
                 block(s["b"], ind + "    ")
         elif t == "with":
             sup = "True" if s["c"] == "sup" else "False"
+            if v:
+                R.bind_line[k] = (len(out), v)
             out.append("%swith CM(%d, %s)%s:" % (ind, k, sup, (" as " + v) if v else ""))
             block(s["a"], ind + "    ")
         elif t == "match":
             out.append("%smatch K(%d):" % (ind, k))
+            R.bind_line[k] = (len(out), v)
             out.append("%s    case (%s,)%s:" % (ind, v, " if T()" if s["g"] else ""))
             block(s["a"], ind + "        ")
             if s["d"]:
@@ -270,6 +278,8 @@ def render(prog, fname, vkinds, bare_star=True):
                     cls = "Exception" if (hv or not bare_star) else ""
                 else:
                     cls = HCLASS[h["c"]]
+                if hv:
+                    R.bind_line[k * 100 + j] = (len(out), hv)
                 out.append("%sexcept%s%s:" % (ind, (" " + cls) if cls else "", (" as " + hv) if hv else ""))
                 out.append("%s    M(%d)" % (ind, k * 100 + j))
                 block(h["a"], ind + "    ", mandatory=False)
